@@ -7,6 +7,7 @@
 use crate::bfs::*;
 use crate::fw::*;
 use crate::model::terms::*;
+use crate::props::c01::{GD, MD};
 use serde_json::{Value, json};
 use sophia_api::dataset::{Dataset, MutableDataset};
 use sophia_api::graph::{Graph, MutableGraph};
@@ -43,6 +44,10 @@ pub trait Store: Clone + Default + Send {
     fn content(&self) -> Vec<AQuad>;
     fn audit(&self) -> Vec<String>;
     fn index_terms(&self) -> Vec<ATerm>;
+    /// pattern query through the real matcher types (shared with C01)
+    fn query(&self, _m: &(MD, MD, MD, GD)) -> Result<Vec<AQuad>, String> {
+        Ok(vec![])
+    }
 }
 
 fn st3(q: &AQuad) -> [ST; 3] {
@@ -74,6 +79,13 @@ macro_rules! ds_store {
                 let ix = self.verif_index();
                 (0..ix.len()).map(|i| ATerm::from_term(ix.get_term(Index::from_usize(i)))).collect()
             }
+            fn query(&self, m: &(MD, MD, MD, GD)) -> Result<Vec<AQuad>, String> {
+                let mut v = vec![];
+                for q in self.quads_matching(m.0.real(), m.1.real(), m.2.real(), m.3.real()) {
+                    v.push(from_quad(&q.map_err(|e| e.to_string())?));
+                }
+                Ok(v)
+            }
         }
     };
 }
@@ -101,6 +113,13 @@ macro_rules! gr_store {
             fn index_terms(&self) -> Vec<ATerm> {
                 let ix = self.verif_index();
                 (0..ix.len()).map(|i| ATerm::from_term(ix.get_term(Index::from_usize(i)))).collect()
+            }
+            fn query(&self, m: &(MD, MD, MD, GD)) -> Result<Vec<AQuad>, String> {
+                let mut v = vec![];
+                for t in self.triples_matching(m.0.real(), m.1.real(), m.2.real()) {
+                    v.push((from_triple(&t.map_err(|e| e.to_string())?), None));
+                }
+                Ok(v)
             }
         }
     };
@@ -271,6 +290,36 @@ impl<S: Store> Model<S> {
                         ));
                     }
                     n += got.len() as u64 + 1;
+                    // every bound/unbound shape, with the constants of every quad of the universe:
+                    // a clone must answer pattern queries like its original (secondary indexes)
+                    for q in universe() {
+                        for mask in 0..16u8 {
+                            if !S::DATASET && mask & 8 != 0 {
+                                continue;
+                            }
+                            let c = |i: usize| if mask & (1 << i) != 0 { MD::Const(q.0[i].clone()) } else { MD::Any };
+                            let g = if mask & 8 != 0 { GD::Const(q.1.clone()) } else { GD::Any };
+                            let m = (c(0), c(1), c(2), g);
+                            let mut expq: Vec<AQuad> = r.quads.iter().filter(|x| m.0.matches(&x.0[0]) && m.1.matches(&x.0[1]) && m.2.matches(&x.0[2]) && (!S::DATASET || m.3.matches(&x.1))).map(quad_key).collect();
+                            expq.sort();
+                            let mut gotq: Vec<AQuad> = match s.query(&m) {
+                                Ok(v) => v.iter().map(quad_key).collect(),
+                                Err(e) => {
+                                    out.push((format!("{}:query-error", S::NAME), e));
+                                    continue;
+                                }
+                            };
+                            gotq.sort();
+                            n += 1;
+                            if gotq != expq {
+                                let prov = if r.origin != 0 { "clone" } else { "original" };
+                                out.push((
+                                    format!("{}:pattern-query:{prov}", S::NAME),
+                                    format!("slot {name} ({prov}): quads_matching({m:?}) = {:?}, expected {:?}", quads_nq(&gotq), quads_nq(&expq)),
+                                ));
+                            }
+                        }
+                    }
                 }
                 n
             }
